@@ -30,16 +30,20 @@ structure CryptoOps where
   sha256 : Bytes → Bytes
 
 /-- Laws of the symmetric AEAD (Secure Cell, seal mode). `dec_enc` is correctness, `enc_of_dec` is
-ideal authenticity (everything accepted was produced by `enc` for that key, context and message),
-`enc_inj` is key/context commitment (idealised). -/
+ideal authenticity (everything accepted was produced by `enc` for that key, context and message). -/
 structure SealLaws (c : CryptoOps) : Prop where
   dec_enc : ∀ k x m n ct, c.enc k x m n = some ct → c.dec k x ct = some m
   enc_of_dec : ∀ k x ct m, c.dec k x ct = some m → ∃ n, n.length = nonceLen ∧ c.enc k x m n = some ct
   enc_none : ∀ k x m n, c.enc k x m n = none ↔ (m = [] ∨ k = [] ∨ n.length ≠ nonceLen)
+
+/-- Length law: sealing adds exactly 44 bytes. NEVER assume together with `SealCommit`: a function
+cannot both add a constant number of bytes and be injective in keys and contexts of unbounded
+length (the two idealisations are jointly unsatisfiable; a theorem assuming both would be vacuous). -/
+structure SealLen (c : CryptoOps) : Prop where
   enc_len : ∀ k x m n ct, c.enc k x m n = some ct → ct.length = m.length + sealOverhead
 
-/-- Commitment: a ciphertext determines key, context and message (idealisation, not provable for a
-hash-based instance without collision assumptions). -/
+/-- Commitment: a ciphertext determines key, context and message (idealisation; satisfied by the
+`Box` instance, not provable for a hash-based instance). See the warning at `SealLen`. -/
 structure SealCommit (c : CryptoOps) : Prop where
   enc_inj : ∀ k x m n k' x' m' n' ct, c.enc k x m n = some ct → c.enc k' x' m' n' = some ct →
     k = k' ∧ x = x' ∧ m = m'
@@ -52,12 +56,19 @@ structure MsgLaws (c : CryptoOps) : Prop where
     c.unwrap b (c.pubOf a) ct = some m → ∃ n, n.length = nonceLen ∧ c.wrap a (c.pubOf b) m n = some ct
   wrap_none : ∀ a b m n, c.validPriv a = true → c.validPriv b = true →
     (c.wrap a (c.pubOf b) m n = none ↔ (m = [] ∨ n.length ≠ nonceLen))
+
+structure MsgLen (c : CryptoOps) : Prop where
   wrap_len : ∀ a p m n ct, c.wrap a p m n = some ct → ct.length = m.length + wrapOverhead
 
-/-- Idealised hash laws (collision freedom), used only where a statement is false without them. -/
-structure HashLaws (c : CryptoOps) : Prop where
+/-- Output length of the hashes. NEVER assume together with `HashInj` (pigeonhole: jointly
+unsatisfiable). Statements that need both the 32-byte layout and collision freedom take the latter
+as a hypothesis about the *finite* set of values at hand (e.g. `NoCollision rows`). -/
+structure HashLen (c : CryptoOps) : Prop where
   hmac_len : ∀ k m, (c.hmac k m).length = 32
   sha_len : ∀ m, (c.sha256 m).length = 32
+
+/-- Idealised collision freedom (satisfied by `Box`). See the warning at `HashLen`. -/
+structure HashInj (c : CryptoOps) : Prop where
   hmac_inj : ∀ k m k' m', c.hmac k m = c.hmac k' m' → k = k' ∧ m = m'
   sha_inj : ∀ m m', c.sha256 m = c.sha256 m' → m = m'
 
